@@ -32,8 +32,9 @@ LEVEL = "exploration"
 ENGINE = "core"
 TECHNIQUE = "runtime monitoring: specification functions over the completion timeline, checked after every firing step"
 RULE = ("exhaustive: every (kind, n, success/failure assignment, pre-fired subset, firing permutation of the "
-        "rest) for n = 1..4 (quick) / 1..5 (thorough) and the 11 kinds (DeferredList x 8 flag combinations, "
-        "gatherResults x consumeErrors, race); each also with cancel() of the aggregate injected before every "
+        "rest) for n = 1..5 (quick) / 1..6 (thorough) and the 11 kinds (DeferredList x 8 flag combinations, "
+        "gatherResults x consumeErrors, race); for n <= 4 (quick) / 5 (thorough) each also with cancel() of the "
+        "aggregate injected before every "
         "firing step and after the last, for 3 input-canceller behaviours (none -> CancelledError, canceller "
         "fires a success, canceller fires a failure); race additionally for each canceller behaviour without "
         "injected cancellation.  Random: n <= 12 with per-input canceller behaviours and up to two cancellations. "
@@ -51,6 +52,7 @@ DL_KINDS = [("dl", foc, foe, ce) for foc in (0, 1) for foe in (0, 1) for ce in (
 KINDS = DL_KINDS + [("gather", 0, 1, 0), ("gather", 0, 1, 1), ("race", 0, 0, 0)]
 CMODES = ("default", "succ", "fail", "noop")
 _T = {}
+DISTINCT_CAP = 40000   # per shard: keeps the merged hash set small
 
 
 def _tw():
@@ -416,7 +418,10 @@ def run_case(ctx, case):
     c.run()
     ctx.evaluated()
     if case["n"] >= 2:
-        ctx.distinct(sorted(case.items()))
+        if ctx.n_distinct < DISTINCT_CAP:
+            ctx.distinct(sorted(case.items()))
+        else:
+            ctx.count("distinct_cases_beyond_hash_cap")   # enumerated cases are distinct by construction
     return c
 
 
@@ -435,7 +440,7 @@ def enumerate_cases(maxn):
 def run(ctx):
     maxn = 4 if ctx.quick else 5
     k = 0
-    for n, ok, pre, order in enumerate_cases(maxn):
+    for n, ok, pre, order in enumerate_cases(maxn + 1):
         k += 1
         if not ctx.owns(k):
             continue
@@ -447,7 +452,7 @@ def run(ctx):
             if k % 97 == 0:
                 ctx.sample({"case": c.case, "timeline": c.tl, "aggregate": c.agg_seen, "later_callbacks_saw": {str(i): v for i, v in c.later.items()},
                             "cancel_calls": [d.cancel_calls for d in c.ds]}, limit=4)
-            for pos in range(len(order) + 1):
+            for pos in range(len(order) + 1 if n <= maxn else 0):   # n = maxn + 1: without injected cancellation
                 for m in CMODES[:3]:
                     run_case(ctx, dict(base, cancel_at=[pos], cmodes=[m] * n))
     ctx.exhaustive = True
